@@ -428,3 +428,29 @@ impl<K, V> IntoIter<K, V> {
         self.rem() == self.seq().len()
     }
 }
+
+// ---- the set wrapper: a SplayTree<T, ()> ------------------------------------------------------
+impl<T, C: Fn(&T, &T) -> Ordering> SplaySet<T, C> {
+    pub closed spec fn t(&self) -> SplayTree<T, (), C> {
+        self.tree
+    }
+
+    pub open spec fn wf(&self) -> bool {
+        self.t().wf()
+    }
+
+    // the elements in increasing order (paired with unit values)
+    pub open spec fn view(&self) -> Seq<(T, ())> {
+        self.t().view()
+    }
+
+    pub open spec fn cmp(&self) -> C {
+        self.t().cmp()
+    }
+}
+
+impl<T> SetIntoIter<T> {
+    pub closed spec fn it(&self) -> IntoIter<T, ()> {
+        self.inner
+    }
+}
